@@ -163,6 +163,56 @@ def _val(ctx, n, only=None):
     ctx.extra["val_model_tree"] = sum(1 for t in trees if t[:1] in "OFGT")
 
 
+def _fxval(ctx, n, only=None):
+    """model vs code on VALUES of the fixed evaluator: the driver computes the result with Model/EvalFixed.lean; lines
+    the model answers with `opaque` (float64 arithmetic decides) are not compared"""
+    lines = only if only is not None else ctx.corpus("fxval") + ctx.gen("fxval", ctx.seed * 15485863 + 11, n[ctx.tier])
+    impl = _par(ctx, "fxval", lines, chunk=8000)
+    parts = [lines[i:i + 8000] for i in range(0, len(lines), 8000)] or [[]]
+    with ThreadPoolExecutor(max_workers=14) as ex:
+        res = list(ex.map(lambda p: ctx.run_model("drv_c09", p), parts))
+    if impl is None or any(r is None for r in res):
+        ctx.violations.append({"kind": "correspondence", "concrete": False, "what": "fxval stream could not be run (driver or harness failed)"})
+        return
+    model = [o for r in res for o in r]
+    ctx.rules.append("area fxval: model vs code on values — NewFixedEvaluator[D1|D2|D3|D4|D6|D9|D16](resolver, z).Evaluate against "
+                     "EvalFixed.evaluate computed by the Lean driver (operand conversion, operators, integer functions from the "
+                     "C03/C04 models); plain comparison of the result texts; `opaque` model answers (exponent literals, ^, "
+                     "sqrt/log/exp…) are not compared and counted separately")
+    bad = 0
+    opaque = 0
+    hist = {}
+    for l, a, b in zip(lines, impl, model):
+        ctx.evals += 1
+        ctx.kinds["fxval:x"] = ctx.kinds.get("fxval:x", 0) + 1
+        if b == "opaque":
+            opaque += 1
+            if a == "panic" or a == "hang":
+                b = "no panic / hang"      # never acceptable
+            else:
+                continue
+        hist[b.split(" ", 1)[0]] = hist.get(b.split(" ", 1)[0], 0) + 1
+        if a == b:
+            if b != "err":
+                ctx.distinct.add(hash(("fxval", l)))
+            if len(ctx.samples) < 16 and ctx.kinds["fxval:x"] % 4999 == 1:
+                ctx.samples.append({"area": "fxval", "op": l[:200], "impl": a[:120], "model": b[:120]})
+            continue
+        if a == "skipped-after-crash":
+            continue
+        bad += 1
+        if bad <= 3:
+            rep = {"property": ctx.id, "kind": "correspondence", "area": "fxval", "harness": "harness", "driver": "drv_c09",
+                   "ops": [l], "impl_outputs": [a], "model_outputs": [b], "concrete_failing_input": True,
+                   "contradicts": "C09.fixed_value_render / div_by_zero_configured / … are about EvalFixed.evaluate; the "
+                                  "implementation returns a different value (or fails differently) on this input"}
+            path = ctx._write_replay(rep)
+            ctx.violations.append({"kind": "correspondence", "what": "fxval: impl=%s model=%s on `%s`" % (a[:120], b[:120], l[:200]),
+                                   "replay": path, "concrete": True})
+    ctx.extra["fxval_opaque_not_compared"] = opaque
+    ctx.extra["fxval_results"] = dict(sorted(hist.items()))
+
+
 def run(ctx):
     ctx.modelled += ["symbolic tie: the harness copies Symbol/Precedence/presence of Evaluate and EvaluateUnary from "
                      "eval.FixedOperators / FloatOperators and the names of eval.FixedFunctions / FloatFunctions into an "
@@ -200,6 +250,8 @@ def run(ctx):
             print("replay wf:", outs)
         elif rep.get("area") == "val":
             _val(ctx, None, only=rep.get("val_t_lines") or [])
+        elif rep.get("area") == "fxval":
+            _fxval(ctx, None, only=rep["ops"])
         return
     ctx.diff(area="struct", driver="drv_c09", n={"quick": 120000, "thorough": 6000000}, stateful=True,
              trivial=lambda l, o: o in ("err", "ok -"),
@@ -209,3 +261,4 @@ def run(ctx):
                      "than the model on this input")
     _wf(ctx, {"quick": 30000, "thorough": 1500000})
     _val(ctx, {"quick": 30000, "thorough": 1000000})
+    _fxval(ctx, {"quick": 120000, "thorough": 4000000})
